@@ -70,6 +70,11 @@ func init() {
 			}
 			return pc
 		})
+		// text inside blocks, overrides, captures and loops of inheritance
+		// chains (the C09 shapes): emitted once, in the root's order
+		sub.Rapid(c, c.Share(c.Pick(3000, 150000)), func(t *rapidT) *progCase {
+			return &progCase{P: gen.BuildInherit(gen.GenInherit(t))}
+		})
 		ident.Rapid(c, c.Share(c.Pick(5000, 200000)), func(t *rapidT) *identCase {
 			g := &gen.G{T: t, C: gen.Cfg{HostileText: true}}
 			var b strings.Builder
